@@ -661,3 +661,127 @@ func (w *World) keepCtx() func() {
 	old := w.cur
 	return func() { w.cur = old }
 }
+
+// ---- renamed private struct fields ------------------------------------------------------------
+//
+// Rules name struct fields (process.mbuffer, Agent.kinds, Inbox.procStatus ...). A private field that
+// was merely renamed keeps its position or at least its type: pinned_fields.txt lists the fields of the
+// module's structs on the pinned tree; a field of today's struct whose name is not in that list reads
+// under the pinned name of the field it replaces (same position and type, or the only added/removed
+// pair of that type). Like the function table this only decides how a construct is *named*.
+
+//go:embed pinned_fields.txt
+var pinnedFieldsTxt string
+
+type pinnedField struct{ name, typ string }
+
+var pinnedFields = func() map[string][]pinnedField {
+	m := map[string][]pinnedField{}
+	for _, l := range strings.Split(pinnedFieldsTxt, "\n") {
+		f := strings.SplitN(strings.TrimSpace(l), "\t", 3)
+		if len(f) == 3 {
+			m[f[0]] = append(m[f[0]], pinnedField{f[1], f[2]})
+		}
+	}
+	return m
+}()
+
+var fieldAliasCache = map[*types.Struct]map[int]string{}
+
+func structKey(n *types.Named) string {
+	if n == nil || n.Obj() == nil || n.Obj().Pkg() == nil {
+		return ""
+	}
+	return n.Obj().Pkg().Path() + "." + n.Obj().Name()
+}
+
+// pinnedFieldName: the name of field i of struct s (named n) as rules know it.
+func pinnedFieldName(n *types.Named, s *types.Struct, i int) string {
+	name := s.Field(i).Name()
+	key := structKey(n)
+	pf, ok := pinnedFields[key]
+	if !ok {
+		return name
+	}
+	al, done := fieldAliasCache[s]
+	if !done {
+		al = map[int]string{}
+		cur := map[string]bool{}
+		for j := 0; j < s.NumFields(); j++ {
+			cur[s.Field(j).Name()] = true
+		}
+		old := map[string]bool{}
+		for _, f := range pf {
+			old[f.name] = true
+		}
+		ts := func(j int) string { return types.TypeString(s.Field(j).Type(), shortQ) }
+		// same position, same type, both names unknown to the other side
+		if s.NumFields() == len(pf) {
+			for j := 0; j < s.NumFields(); j++ {
+				if nm := s.Field(j).Name(); !old[nm] && !cur[pf[j].name] && ts(j) == pf[j].typ {
+					al[j] = pf[j].name
+				}
+			}
+		}
+		// otherwise: the only added and the only removed field of one type
+		addedByType, removedByType := map[string][]int{}, map[string][]string{}
+		for j := 0; j < s.NumFields(); j++ {
+			if _, has := al[j]; !has && !old[s.Field(j).Name()] {
+				addedByType[ts(j)] = append(addedByType[ts(j)], j)
+			}
+		}
+		taken := map[string]bool{}
+		for _, v := range al {
+			taken[v] = true
+		}
+		for _, f := range pf {
+			if !cur[f.name] && !taken[f.name] {
+				removedByType[f.typ] = append(removedByType[f.typ], f.name)
+			}
+		}
+		for t, js := range addedByType {
+			if rs := removedByType[t]; len(js) == 1 && len(rs) == 1 {
+				al[js[0]] = rs[0]
+			}
+		}
+		fieldAliasCache[s] = al
+	}
+	if a, ok := al[i]; ok {
+		return a
+	}
+	return name
+}
+
+// libStructFields lists the fields of the module's named struct types (-dump-fields prints it).
+func (w *World) libStructFields() []string {
+	var out []string
+	for _, l := range libPkgs {
+		sp := w.SP[l]
+		if sp == nil {
+			continue
+		}
+		for _, mem := range sp.Members {
+			t, ok := mem.(*ssa.Type)
+			if !ok {
+				continue
+			}
+			n, ok := t.Type().(*types.Named)
+			if !ok {
+				continue
+			}
+			s, ok := n.Underlying().(*types.Struct)
+			if !ok {
+				continue
+			}
+			pos := w.Fset.Position(n.Obj().Pos()).Filename
+			if strings.HasSuffix(pos, ".pb.go") {
+				continue
+			}
+			for j := 0; j < s.NumFields(); j++ {
+				out = append(out, structKey(n)+"\t"+s.Field(j).Name()+"\t"+types.TypeString(s.Field(j).Type(), shortQ))
+			}
+		}
+	}
+	sort.SliceStable(out, func(a, b int) bool { return strings.SplitN(out[a], "\t", 2)[0] < strings.SplitN(out[b], "\t", 2)[0] })
+	return out
+}
